@@ -261,7 +261,7 @@ def check(ctx: Ctx) -> None:
         p = cfg.must_pass([m for (m, l) in cfg.succ[vt[0].id] if l == "true"], [loops[0].id], {t.id})
         if p is not None:
             ob.violation(ul, vt[0].ast, "with versioned=True the dispatch loop is reachable without the version comparison", path=cfg.describe_path(p))
-        rd = [c for c in repo.calls_in(ul) if unparse(c.func) == "self.stream.read" and c.lineno < t.line]
+        rd = [c for c in repo.calls_in(ul) if unparse(c.func) == "self.stream.read" and c.lineno <= t.line]
         if not rd or repo.fold_in(rd[0].args[0], ul) != 1:
             ob.violation(ul, t.ast, "the version gate does not read exactly one byte")
         # writer: [version] value STOP
